@@ -26,6 +26,13 @@ def showList : Option (List Rep) → String
   | some l => " ".intercalate (toString l.length :: l.map fun r =>
       hex r.toList ++ (if (cstr r.buf).length == r.len then "" else "!strlen"))
 
+/-- an `Array<String>` given as cells: a dead cell in the result would be printed as `dead` -/
+def showCells : Option Rep.Cells → String
+  | none => "oob"
+  | some cs => match cs.mapM id with
+    | some l => showList (some l)
+    | none => "dead"
+
 def b2s (b : Bool) : String := if b then "1" else "0"
 
 def int? (s : String) : Option Int := s.toInt?
@@ -295,13 +302,15 @@ def step (st : St) (ts : List String) : St × String :=
   -- the output array holds the operands: out = [filler, cur, filler]; `out[1].split(sep, out)` etc.
   | ["splitself", h] => match unhex h with
     | some sep => qry st fun r => if sep.isEmpty then "err empty" else
-        showList ((Rep.ofCStr fillerText).bind fun f => (r.copy).bind fun c => Rep.splitElem [f, c, f] 1 sep)
+        showCells ((Rep.ofCStr fillerText).bind fun f => (r.copy).bind fun c => (Rep.ofBytes sep).bind fun sp =>
+          Rep.splitInto [some f, some c, some f] (.cell 1) (.ext sp))
     | none => (st, "bad-op")
   | ["splitwsself"] => qry st fun r =>
-      showList ((Rep.ofCStr fillerText).bind fun f => (r.copy).bind fun c => Rep.splitWsElem [f, c, f] 1)
+      showCells ((Rep.ofCStr fillerText).bind fun f => (r.copy).bind fun c => Rep.splitWsInto [some f, some c, some f] (.cell 1))
   | ["splitsepself", h] => match unhex h with
     | some sep => qry st fun r => if sep.isEmpty then "err empty" else
-        showList ((Rep.ofCStr fillerText).bind fun f => (Rep.ofBytes sep).bind fun sp => Rep.splitSepElem r [f, sp, f] 1)
+        showCells ((Rep.ofCStr fillerText).bind fun f => (Rep.ofBytes sep).bind fun sp =>
+          Rep.splitInto [some f, some sp, some f] (.ext r) (.cell 1))
     | none => (st, "bad-op")
   | ["splitws"] => qry st fun r =>
       showList r.splitWs
